@@ -8,7 +8,7 @@ from ..inline import inlined
 from ..model import AnalysisError, Program
 from ..report import Run
 from ..skel import BUILDER_CLASSES, kind_states, recv_path, render, render_sites, root_attr
-from ..symex import Const, CtxV, Hole, ListV, Lit, Obj, One, SlotP, Str, Sym, show, walk_parts
+from ..symex import Const, CtxV, Hole, Inh, InhOr, ListV, Lit, Obj, One, SlotP, Str, Sym, show, walk_parts
 from .c06 import paths
 
 
@@ -64,6 +64,7 @@ def check(program: Program, run: Run) -> None:
     run.rule("R2 qualifier emitted iff table and (with_namespace or alias); text = alias else table name; Field and Star agree")
     run.rule("R3 INSERT column list, SET targets, ON CONFLICT/ON DUPLICATE update targets: with_namespace Const False; USING fields built without a table")
     run.rule("R4 a name that only ever denotes methods is never used un-called as a truth value or comparison operand")
+    run.rule("R8 every column-bearing clause slot of a DML statement is rendered under the statement's own with_namespace decision, never the incoming flag")
     run.rule("R7 (inherited from C13/R5,R6) the foreign-table flag is written monotonically: no builder call assigns it from its own argument alone")
     run.rule("R6 (inherited from C17/R3) every rendered child is traversed by nodes_(): the foreign-table flag is computed from fields_(), which sees only what nodes_() yields")
     run.rule("R5 the foreign-table decision (_validate_table) identifies row sources by whole-object equality/membership over _from, _update_table and the joined items, never by a projection (name only) of the source")
@@ -279,6 +280,37 @@ def check(program: Program, run: Run) -> None:
                         where=fd.where, rule="R6 (inherited from C17/R3)")
     if n6 < 60:
         raise AnalysisError(f"instance count below floor: traversal obligations {n6}")
+
+    # ---- R8: the statement's own namespace decision reaches every clause that can hold a column reference.  A clause helper
+    # called with the *incoming* context (`self._where_sql(outer_ctx)`) takes the decision of the statement this one is
+    # embedded in -- none at top level -- and writes bare columns next to qualified ones.
+    COLUMN_CLAUSES = {"_wheres", "_prewheres", "_havings", "_selects", "_groupbys", "_orderbys", "_joins", "_from"}
+    n8 = 0
+    seen8 = set()
+    for st in render_sites(program):
+        if not isinstance(st["ctx"], CtxV) or st["method"] != "get_sql":
+            continue
+        fcls = st["func"].rsplit(".", 1)[0]
+        ra8 = root_attr(st["recv"])
+        if not (fcls.endswith("QueryBuilder") and fcls in BUILDER_CLASSES) or ra8 not in COLUMN_CLAUSES:
+            continue
+        v8 = st["ctx"].fields["with_namespace"]
+        chain8 = (getattr(st.get("part"), "src", None) or (None, None, None, ()))[3]
+        entry8 = next((c_ for c_ in chain8 if c_.endswith(".get_sql")), st["func"])     # the statement renderer that passed the context down
+        k8 = (entry8, st["func"], ra8, show(v8)[:40])
+        if k8 in seen8:
+            continue
+        seen8.add(k8)
+        n8 += 1
+        inherited = isinstance(v8, (Inh, InhOr)) and v8.name == "with_namespace"
+        run.ob("C11/R8 clause rendered under the statement's own namespace decision", f"{st['func']}:{st['recv']}", not inherited, detail=f"with_namespace={show(v8)[:60]}",
+               where=f"{st['file']}:{st['line']}")
+        if inherited:
+            run.finding(f"C11/namespace-decision-missed:{entry8}:{ra8}",
+                        f"(reached from {entry8}) {st['func']} renders `{st['recv']}` with the incoming ctx.with_namespace instead of the statement's own decision on some path: with joins / several sources "
+                        "the columns of that clause are written bare while the rest of the statement is qualified", where=f"{st['file']}:{st['line']}", rule="R8")
+    if n8 < 8:
+        raise AnalysisError(f"instance count below floor: statement clause sites {n8}")
 
     # ---- R7: the foreign-table flag is sticky.  where()/prewhere() are called repeatedly and in any order; a call that
     # assigns the flag from its own criterion alone clears what an earlier call recorded, and the statement loses its
